@@ -50,6 +50,12 @@ claim("C03", "other", "static analysis: abstract interpretation of decode_amd64.
 claim("C04", "other", "static analysis: bounds prover obligations on the decoders (offset >= 1 at every distance use, read cursor = end of source on success, dictionary/destination bounds, pending length 0 at loop exit, justified dictionary error exit)",
       "Decides the error clauses of the block format that are linear facts at identifiable program points of the decoders. Byte-exact output and independence from stale destination bytes are not decided.",
       "DESIGN.md section 4, C04")
+claim("C10", "other", "static analysis: abstract interpretation of both block compressors' SSA in a template-polyhedra domain with exact LP; obligations at the offset store, the literal copies and the length-byte stores",
+      "Proves on all paths of Compressor.CompressBlock and CompressorHC.CompressBlock that offsets written are <= 65535 (>= 1 in the fast compressor), that every literal run starts at 0 or >= 5 bytes before the end, that every match starts >= 12 bytes before the end, that the final literal copy is complete, and that computed length bytes are <= 254. HC offset >= 1 and 'offset never reaches before the start' need an invariant over table contents and are not decided.",
+      "DESIGN.md section 4, C10")
+claim("C11", "other", "static analysis: same bounds prover; no-panic obligations for destination index/slice operations (fast compressor), write-extent obligations against len(dst) (both), result range, (0,nil) guard",
+      "Proves that the fast compressor cannot panic on the destination, that no store/copy of either compressor reaches beyond len(dst) of the caller's slice (length, not capacity), that the returned count is within [0, len(dst)], that (0,nil) needs len(dst) < bound, and that a positive count passes through a complete final literal copy. That len(dst) >= bound always succeeds is not decided.",
+      "DESIGN.md section 4, C11")
 na("C01", "value-level equality decompress(compress(x)) == x over all byte strings depends on hash-table contents and match arithmetic that no sound static argument in reach can follow; its structural necessary conditions (offsets inside the window, literals flushed to the end, destination contract) are decided under C10 and C11")
 for i in range(1, 21):
     id = "C%02d" % i
